@@ -8,8 +8,8 @@ Transcribed from
   contracts/halo-factory/src/contract.rs  (the four execute arms, reply, queries)
   contracts/halo-router/src/{contract,operations,assert}.rs
   packages/haloswap/src/asset.rs          (into_msg, query_pools, assert_sent_native_token_balance)
-and from the environment they run in: cw20-base 1.0.0 (transfer / send / transfer_from / mint / burn /
-increase_allowance) and the cw-multi-test 0.16.1 bank + dispatcher (attached funds are moved before the
+and from the environment they run in: cw20-base 1.0.0 (transfer / send / transfer_from / send_from / mint / burn /
+burn_from / increase_allowance / decrease_allowance) and the cw-multi-test 0.16.1 bank + dispatcher (attached funds are moved before the
 contract runs; sub-messages run depth-first in order; any failure reverts the whole transaction).
 
 Addresses and denoms are `Nat` identifiers.  Every handler computes from the world at handler entry
@@ -132,6 +132,24 @@ def tokTransferFrom (w : World) (t spender owner dst amt : Nat) : M World :=
           bal := fun a => if a = dst then b1 a + amt else b1 a
           allow := fun o s => if o = owner ∧ s = spender then some (al - amt) else T.allow o s })
 
+/-- cw20 `BurnFrom` by `spender`: `deduct_allowance` (an entry must exist, no zero-amount check), then the
+owner's balance and the total supply go down -/
+def tokBurnFrom (w : World) (t spender owner amt : Nat) : M World :=
+  match w.tok t with
+  | none => .error .err
+  | some T =>
+    match T.allow owner spender with
+    | none => .error .insufficient
+    | some al =>
+      if al < amt then .error .insufficient
+      else if T.bal owner < amt then .error .insufficient
+      else if T.supply < amt then .error .insufficient
+      else
+        .ok (setTok w t { T with
+          supply := T.supply - amt
+          bal := fun a => if a = owner then T.bal a - amt else T.bal a
+          allow := fun o s => if o = owner ∧ s = spender then some (al - amt) else T.allow o s })
+
 /-- cw20 `Mint` -/
 def tokMint (w : World) (t sender dst amt : Nat) : M World :=
   match w.tok t with
@@ -167,6 +185,21 @@ def tokIncAllow (w : World) (t owner spender amt : Nat) : M World :=
       if W ≤ cur + amt then .error .abort
       else .ok (setTok w t { T with
         allow := fun o s => if o = owner ∧ s = spender then some (cur + amt) else T.allow o s })
+
+/-- cw20 `DecreaseAllowance` (no expiry): the spender must differ from the owner, the entry must exist
+(`ALLOWANCES.load`); an amount not below the current allowance REMOVES the entry, otherwise it is subtracted -/
+def tokDecAllow (w : World) (t owner spender amt : Nat) : M World :=
+  match w.tok t with
+  | none => .error .err
+  | some T =>
+    if spender = owner then .error .err
+    else
+      match T.allow owner spender with
+      | none => .error .err
+      | some al =>
+        .ok (setTok w t { T with
+          allow := fun o s =>
+            if o = owner ∧ s = spender then (if amt < al then some (al - amt) else none) else T.allow o s })
 
 /-- `AssetInfo::query_pool`: the balance of `who` in an asset (a query error for an unknown token) -/
 def balOf (w : World) (a : Asset) (who : Nat) : M Nat :=
@@ -619,6 +652,18 @@ def tokSend (name : Asset → String) (w : World) (t sender dst amt : Nat) (h : 
     pure (w2, .none)
   else .error .err
 
+/-- cw20 `SendFrom` by `spender`: the tokens are pulled from `owner` with `spender`'s allowance (as `TransferFrom`),
+then the receiving contract's `Receive` runs with `info.sender = t` and `cw20_msg.sender = spender` -/
+def tokSendFrom (name : Asset → String) (w : World) (t spender owner dst amt : Nat) (h : Hook) : M (World × Out) :=
+  if (w.pair dst).isSome then do
+    let w1 ← tokTransferFrom w t spender owner dst amt
+    pairReceive w1 dst t spender amt h
+  else if dst = w.router then do
+    let w1 ← tokTransferFrom w t spender owner dst amt
+    let w2 ← routerReceive name w1 spender h
+    pure (w2, .none)
+  else .error .err
+
 /-- what an external actor can submit -/
 inductive Op
   | bankSend (sender dst : Nat) (coins : List (Nat × Nat))
@@ -629,6 +674,10 @@ inductive Op
   | pair (sender p : Nat) (funds : List (Nat × Nat)) (m : PairMsg)
   | router (sender : Nat) (funds : List (Nat × Nat)) (m : RouterMsg)
   | factory (sender : Nat) (funds : List (Nat × Nat)) (m : FacMsg)
+  | tokTransferFrom (t spender owner dst amt : Nat)
+  | tokSendFrom (t spender owner dst amt : Nat) (h : Hook)
+  | tokBurnFrom (t spender owner amt : Nat)
+  | tokDecAllow (t owner spender amt : Nat)
   deriving Repr, Inhabited
 
 def exec (name : Asset → String) (w : World) : Op → M (World × Out)
@@ -640,6 +689,10 @@ def exec (name : Asset → String) (w : World) : Op → M (World × Out)
   | .pair s p f m => pairExec w s p f m
   | .router s f m => do let w' ← routerExec name w s f m; pure (w', .none)
   | .factory s f m => do let w' ← facExec w s f m; pure (w', .none)
+  | .tokTransferFrom t sp o d a => do let w' ← tokTransferFrom w t sp o d a; pure (w', .none)
+  | .tokSendFrom t sp o d a h => tokSendFrom name w t sp o d a h
+  | .tokBurnFrom t sp o a => do let w' ← tokBurnFrom w t sp o a; pure (w', .none)
+  | .tokDecAllow t o s a => do let w' ← tokDecAllow w t o s a; pure (w', .none)
 
 /-- a transaction is atomic: on failure nothing changes -/
 def step (name : Asset → String) (w : World) (op : Op) : World :=
